@@ -210,11 +210,19 @@ func (e *Engine) VerifyFunc(t unitTarget) *Unit {
 		}
 	}
 	c.setupResults(st, ftype, sig)
+	c.paramObjs = map[*types.Var]bool{}
+	c.headerNames = map[string]bool{}
+	for obj := range st.vars {
+		if v, ok := obj.(*types.Var); ok {
+			c.paramObjs[v] = true
+		}
+	}
 	// header bindings
 	if t.spec != nil {
 		if t.lit == nil {
 			for k, v := range c.bindHeader(t.spec, recvVal, paramVals) {
 				c.binds[k] = v
+				c.headerNames[k] = true
 			}
 		} else {
 			// for literals the header names the enclosing function; the
@@ -477,6 +485,12 @@ func (c *ExecCtx) checkFrame(st *State, env *SpecEnv, pos token.Pos) {
 			}
 		case *ast.StarExpr:
 			v := env.eval(old, old, x.X)
+			if mt, ok := unalias(v.Ty).Underlying().(*types.Map); ok {
+				hn, vn, ln, _, _ := c.mapHeaps(mt)
+				for _, h := range []string{hn, vn, ln} {
+					allowed[h] = append(allowed[h], v.T)
+				}
+			}
 			if pt, ok := unalias(v.Ty).Underlying().(*types.Pointer); ok {
 				if _, stt := structOf(pt.Elem()); stt != nil {
 					for i := 0; i < stt.NumFields(); i++ {
